@@ -89,7 +89,28 @@ var ruleAddenda8 = map[string]string{
 	"C19": "s.writers (overlapping wsjson.Write); s.probe (first message of back-references only).",
 }
 
+var ruleAddenda9 = map[string]string{
+	"C01": "WP-flate (Ping and Pong between the frames of a compressed message); s.idiom: two real endpoints joined by relay tasks, every call with a context of its own that is cancelled as soon as the call has returned, message sequences mixed/stream over four configurations, a final round trip after everything settled; part accepted (client frames already buffered in the hijacked reader when Accept runs).",
+	"C03": "Close codes at the boundaries of the registered ranges (1000..1015, 2999/3000, 4999/5000).",
+	"C05": "RC150: the reader is in the middle of a final frame between two Read calls when Close (with and without the peer's echo), CloseNow or a cancellation arrives.",
+	"C06": "Part closemid: a Close frame between the fragments of a message is reported by the failing read (CloseStatus = the peer's code) and echoed with that code; calls that must fail after a failed Close.",
+	"C07": "conc-stalledEcho+CloseNow: the peer's Close frame sits between the fragments of a compressed message, the echo parks in the transport, CloseNow comes from another goroutine and a new connection is opened meanwhile; wconc/wconc-sep/wconc-cross also on compressed connections (pooled compressor).",
+	"C08": "An over-limit message while the application holds an open Writer; a message that ends early in an 8 MiB frame (allocation).",
+	"C09": "Race units: closers racing the first CloseRead.",
+	"C11": "Keys of more than 16 bytes; the library gets copies of option slices and must not modify them.",
+	"C12": "An Origin header that names no host (null, schemeless) is refused unless a pattern matches the empty host.",
+	"C13": "The request is also inspected after an earlier handshake whose response carried an extension agreement.",
+	"C14": "s.xconn on compressed connections (a connection closed while its compressed write is parked in the transport, another connection compresses meanwhile).",
+	"C15": "The connection is closed by CloseNow while a Ping waits; further Pings on the closed connection must return.",
+	"C16": "Part fault (seqx): the k-th transport write reports a transient error after taking none, half or all of its bytes while the transport stays open; Close frames caused by a protocol error, the read limit, the CloseRead policy, the peer's Close and a local Close; then Write, Writer, Ping, Close, Write.",
+	"C18": "Part arch386: the deadline words on a 32-bit platform; a zero time that carries a location removes the deadline.",
+	"C19": "s.idiom with wsjson.Write / wsjson.Read and per-call contexts; part accepted: JSON documents already buffered in the hijacked reader, read through wsjson.Read.",
+}
+
 func init() {
+	for id, add := range ruleAddenda9 {
+		ruleAddenda8[id] += " " + add
+	}
 	for id, add := range ruleAddenda8 {
 		ruleAddenda7[id] += " " + add
 	}
